@@ -251,3 +251,103 @@ Fixpoint run_events (a : app) (tbl : list pt) (dir : str) (evs : list event)
       end
   | _ => None        (* no leaf callback ran: dispatch reports no match *)
   end.
+
+(* a switch / toggle (by address) is on in state s *)
+Definition sw_on (a : app) (s : state) (g : str) : bool := is_on (val_at s (idx_of (map p_path a) g)).
+
+(* ---- the names as C04's tree (the construction of DispatchWalk.to_tree, restated here
+   because that file holds proofs; hp = what the perfect-hash search returned for a
+   table, tid = the identity of the Ports object: inputs of C04's model) --------------------- *)
+Definition sp_is_sub (p : sport) : bool := match p with SPort _ _ _ (Some _) => true | _ => false end.
+Definition sp_name (p : sport) : list Z := match p with SPort sg a _ _ => render_name sg a end.
+
+Section CTree.
+  Variable hp : list sport -> list Z * list Z.
+  Variable tid : list sport -> Z.
+
+  Definition c_table (l : list sport) : table :=
+    {| t_id := tid l; t_dflt := false;
+       t_ports := map (fun p => (sp_name p, sp_is_sub p)) l;
+       t_pos := fst (hp l); t_assoc := snd (hp l) |}.
+
+  Fixpoint c_tree_port (p : sport) : option tree :=
+    match p with
+    | SPort _ _ _ None => None
+    | SPort _ _ _ (Some l) =>
+        Some (Node (c_table l)
+                   ((fix go (l : list sport) : list (option tree) :=
+                       match l with [] => [] | x :: r => c_tree_port x :: go r end) l))
+    end.
+
+  Definition c_tree (root : list sport) : tree := Node (c_table root) (map c_tree_port root).
+
+  (* Ports::dispatch of the message (addr, one argument) at the root with a location
+     buffer; the callbacks it invokes run in order *)
+  Definition tree_dispatch (t : list pt) (addr : str) (v : scalar) (s : state) : option state :=
+    run_events (app_of_tree t) t [47]
+               (rev (log (dispatch (c_tree (sports_of t)) addr (tag_of v) true 0))) v s.
+
+  (* dispatch_printed_messages hands a line out as one message, an array line
+     ("[v0 v1 ...]") element by element at "path<idx>" *)
+  Fixpoint tree_elems (t : list pt) (path : str) (k : nat) (vs : value) (s : state) : option state :=
+    match vs with
+    | [] => Some s
+    | v :: r => match tree_dispatch t (path ++ dec (Z.of_nat k)) v s with
+                | Some s' => tree_elems t path (S k) r s'
+                | None => None
+                end
+    end.
+  Definition tree_apply_line (t : list pt) (l : line) (s : state) : option state :=
+    if l_array l then tree_elems t (l_path l) 0 (l_vals l) s
+    else match l_vals l with [v] => tree_dispatch t (l_path l) v s | _ => None end.
+End CTree.
+
+(* tables served by the linear scan, numbered by their length *)
+Definition nohash (l : list sport) : list Z * list Z := ([], []).
+Definition len_id (l : list sport) : Z := Z.of_nat (length l).
+
+(* ---- the walk with the runtime object of a state ---------------------------------------------- *)
+(* the sub-tree ports under every expansion: address (with the trailing '/'), switch
+   of the pointer, 'enabled by' toggle (addresses) *)
+Definition dir_entry := (str * option str * option str)%type.
+
+Fixpoint dirs_pt (dir : str) (p : pt) {struct p} : list dir_entry :=
+  match p with
+  | PLeaf _ _ _ => []
+  | PSub nm enum ptr sw sub =>
+      flat_map (fun x =>
+        (dir ++ x, option_map (fun g => dir ++ g) ptr, option_map (fun g => dir ++ g) sw) ::
+        (fix go (l : list pt) : list dir_entry :=
+           match l with [] => [] | q :: r => dirs_pt (dir ++ x) q ++ go r end) sub)
+        (expand (sub_segs nm enum))
+  end.
+Fixpoint dirs_tbl (dir : str) (l : list pt) : list dir_entry :=
+  match l with [] => [] | q :: r => dirs_pt dir q ++ dirs_tbl dir r end.
+Definition dirs_root (t : list pt) : list dir_entry := dirs_tbl [47] t.
+
+Definition dir_addr (d : dir_entry) : str := fst (fst d).
+Definition dir_find (ds : list dir_entry) (b : str) : option dir_entry :=
+  find (fun d => str_eqb (dir_addr d) b) ds.
+
+(* the oracle C09's walk model asks: o_null b - the sub-tree at address b is a pointer
+   whose switch is off (the object does not exist); o_disabled b - its 'enabled by'
+   toggle answers false *)
+Definition oracle_of (a : app) (ds : list dir_entry) (s : state) : oracle :=
+  {| o_null := fun b => match dir_find ds b with
+                        | Some (_, Some g, _) => negb (sw_on a s g)
+                        | _ => false
+                        end;
+     o_disabled := fun b => match dir_find ds b with
+                            | Some (_, _, Some g) => negb (sw_on a s g)
+                            | _ => false
+                            end;
+     o_selfoff := fun _ => false |}.
+
+(* the ports the walker was called for: those whose (first element's) address it was given *)
+Definition reported (out : list report) (addr : str) : bool := existsb (fun r => str_eqb (snd r) addr) out.
+Definition walk_tree (t : list pt) (st : state) : list nat :=
+  let a := app_of_tree t in
+  match walk (Some (oracle_of a (dirs_root t) st)) (map render_port (sports_of t)) [] with
+  | WOk out _ => filter (fun i => reported out (elem_addr (port_at a i) 0)) (seq 0 (length a))
+  | WFail => []
+  end.
